@@ -460,7 +460,31 @@ def oracle_override(col, case, sub='override'):
         installed = True
         _check_now(sub, case, timeutils, cur, 'after override')
         for i, op in enumerate(ops):
-            if op[0] == 'delta':
+            if op[0] == 'set':
+                # a new single-instant override on top of the current one,
+                # without clearing first: the clock is now that instant
+                timeutils.set_time_override(from_us(op[1]))
+                cur = op[1]
+            elif op[0] == 'nest':
+                # a nested fixture with its own instant, advanced, then
+                # cleaned up (which clears the override altogether)
+                from oslo_utils import fixture
+                fx = fixture.TimeFixture(from_us(op[1]))
+                fx.setUp()
+                try:
+                    _check_now(sub, case, timeutils, op[1],
+                               'inside nested fixture at step %d' % i)
+                    fx.advance_time_delta(
+                        datetime.timedelta(microseconds=op[2]))
+                    _check_now(sub, case, timeutils, op[1] + op[2],
+                               'inside nested fixture at step %d (advanced)'
+                               % i)
+                finally:
+                    fx.cleanUp()
+                # the outer override is gone with the inner cleanup; put a
+                # fresh one in place as a caller would
+                timeutils.set_time_override(from_us(cur))
+            elif op[0] == 'delta':
                 clock.advance_delta(datetime.timedelta(microseconds=op[1]))
                 cur += op[1]
             else:
@@ -618,10 +642,19 @@ def search_override(col, seed, max_examples):
         T = draw(instants)
         ops = []
         cur = T
-        for _ in range(draw(st.integers(0, 4))):
-            kind = draw(st.sampled_from(['delta', 'int', 'frac']))
+        for _ in range(draw(st.integers(0, 5))):
+            kind = draw(st.sampled_from(['delta', 'int', 'frac', 'set',
+                                         'nest']))
             lo, hi = LO - cur, HI - cur
-            if kind == 'delta':
+            if kind == 'set':
+                cur = draw(instants)
+                ops.append(['set', cur])
+            elif kind == 'nest':
+                t2 = draw(instants)
+                d2 = draw(st.sampled_from([0, 1, US, -US, DAY_US]))
+                d2 = max(LO - t2, min(HI - t2, d2))
+                ops.append(['nest', t2, d2])
+            elif kind == 'delta':
                 v = draw(st.one_of(
                     st.sampled_from([0, 1, -1, US, -US, 1500000, DAY_US,
                                      -DAY_US]),
@@ -731,6 +764,25 @@ KNOWN = {}
 
 # -- entry points ---------------------------------------------------------------------------
 
+def override_histories(col):
+    """Deterministic histories of set / advance / set-again / nested
+    fixture: after every step utcnow() is the last instant set plus what was
+    advanced since."""
+    sub = 'override'
+    A = to_us(datetime.datetime(2001, 2, 3, 4, 5, 6, 7))
+    B = to_us(datetime.datetime(1969, 12, 31, 23, 59, 59, 999999))
+    C = to_us(datetime.datetime(2038, 1, 19, 3, 14, 8))
+    steps = (['delta', 1500000], ['int', 60], ['frac', -250000],
+             ['set', B], ['set', C], ['nest', B, US], ['delta', -DAY_US])
+    import itertools
+    for mode in ('direct', 'fixture', 'fixture-with'):
+        for n in (1, 2, 3):
+            for ops in itertools.product(steps, repeat=n):
+                oracle_override(col, {'T': A, 'ops': [list(o) for o in ops],
+                                      'mode': mode}, sub)
+    col.exhaustive.setdefault(sub, False)
+
+
 def fold_pairs(col):
     """History sub-check: for every zone with a repeated hour, the two
     datetimes that differ only in `fold` (they compare and hash equal but
@@ -788,7 +840,8 @@ def tasks(tier, seed):
         n, shards = 2000, 1
     else:
         n, shards = 8000, 2
-    out = [Task('foldpairs', fold_pairs)]
+    out = [Task('foldpairs', fold_pairs),
+           Task('override', override_histories)]
     step = 360
     for lo in range(-1439, 1440, step):
         out.append(Task('offsets', offsets_exhaustive, lo=lo,
